@@ -30,6 +30,7 @@ func runC06(p *eng.Prog, r *eng.Report, tier string) {
 	// writer and Close, or between the serve loop and a requester, ends every guarantee of this property
 	lockOrder(c, "C06.32")
 	c06SendResp(c)
+	c15HandlerEncoderStays(c, "C06.33")
 	c.r.Floor("C06.31", "blocking channel operations", lockHeldAcrossChannelOp(c, "C06.31", ""), 8)
 	c.r.Floor("C06.30", "closers received from a channel", receivedCloserNotDropped(c, "C06.30", func(f *eng.Fn) bool { return true }), 3)
 	c06Handoff(c)
